@@ -270,12 +270,17 @@ void queue_history(const vf::opts &o, vf::report &R, uint64_t histories) {
         vf::set_crash_ctx(R.prop.c_str(), scen, o.seed, hn);
         size_t limit = Limited ? 1 + r.below(4) : 0;
         int len = 1 + (int)r.below(r.chance(1, 4) ? 40 : 14);
+        // long runs on ONE queue object: hundreds of items / parked producers / waiting consumers build up and drain again (container
+        // growth and node boundaries, effects that only show after many operations on the same object)
+        bool longrun = r.chance(1, 80);
+        if (longrun) { len = 150 + (int)r.below(450); if (Limited && r.chance(1, 2)) limit = 30 + r.below(70); }
         bool coro_mode = r.chance(1, 5);
         std::vector<q_step> steps;
         // bias: phases of producer-heavy / consumer-heavy traffic so that both blocked producers and waiting consumers build up
         int bias = (int)r.below(3);
         for (int i = 0; i < len; i++) {
-            if (i % 6 == 0 && r.chance(1, 2)) bias = (int)r.below(3);
+            if (!longrun && i % 6 == 0 && r.chance(1, 2)) bias = (int)r.below(3);
+            if (longrun && i % 100 == 0) bias = (int)r.below(2); // long phases: producer-heavy, then consumer-heavy
             uint32_t x = r.below(100);
             int op;
             int pushw = bias == 0 ? 60 : (bias == 1 ? 25 : 42);
@@ -284,6 +289,7 @@ void queue_history(const vf::opts &o, vf::report &R, uint64_t histories) {
             else if (x < 95) op = Limited ? QO_UNBLOCK_PUSH : QO_UNBLOCK_POP;
             else if (x < 98) op = QO_SIZE;
             else op = QO_DESTROY;
+            if (longrun && op == QO_DESTROY && i < len - 5) op = QO_SIZE;
             if (op == QO_PUSH && !coro_mode && r.chance(1, 12)) op = QO_PUSH_THROW;
             steps.push_back({op, (int)r.chance(1, 2)});
         }
@@ -301,7 +307,8 @@ void queue_history(const vf::opts &o, vf::report &R, uint64_t histories) {
         if (nontrivial) R.nontrivial_cases++;
         R.sig(desc, nontrivial);
         R.cls(coro_mode ? "history_coroutine_mode" : "history_normal_mode");
-        if (R.samples.size() < 3 && len > 6) R.sample(vf::jobj().kv("ops", desc).kv("result", "agrees with the reference model after every step").str());
+        if (longrun) R.cls("long_histories_150_to_600_ops_on_one_queue");
+        if (R.samples.size() < 3 && len > 6 && !longrun) R.sample(vf::jobj().kv("ops", desc).kv("result", "agrees with the reference model after every step").str());
     }
 }
 
